@@ -2,12 +2,12 @@
 # Builds the overlay interpreter used by every check: /venv's python + its site-packages + z3 from
 # the offline wheelhouse.  Idempotent; called by MANIFEST.setup_cmd and by ./check when missing.
 set -e
-V=/verif/.venv
+HERE=$(cd "$(dirname "$0")/.." && pwd)
+V="$HERE/.venv"
 if [ -x "$V/bin/python" ] && "$V/bin/python" -c "import z3" 2>/dev/null; then exit 0; fi
 rm -rf "$V"
 /venv/bin/python -m venv "$V"
 SP=$("$V/bin/python" -c "import sysconfig; print(sysconfig.get_paths()['purelib'])")
 printf '/venv/lib/python3.12/site-packages\n' > "$SP/base.pth"
-PIP_NO_INDEX=1 "$V/bin/python" -m pip install -q --no-index --find-links /opt/veriftools/wheels z3-solver crosshair-tool >/dev/null 2>&1 \
-  || PIP_NO_INDEX=1 "$V/bin/python" -m pip install -q --no-index --find-links /opt/veriftools/wheels z3-solver
+PIP_NO_INDEX=1 "$V/bin/python" -m pip install -q --no-index --find-links /opt/veriftools/wheels z3-solver >/dev/null 2>&1
 "$V/bin/python" -c "import z3; print('z3', z3.get_version_string())"
